@@ -7,6 +7,9 @@ require (
 	gopkg.in/yaml.v3 v3.0.1
 )
 
-require github.com/google/go-cmp v0.7.0 // indirect
+require (
+	github.com/google/go-cmp v0.7.0 // indirect
+	github.com/magiconair/properties v1.8.10 // indirect
+)
 
 replace github.com/rkosegi/yaml-toolkit => /repo
